@@ -30,7 +30,7 @@ def case_strategy(draw, max_cells=40):
     rest = draw(st.lists(st.tuples(st.sampled_from(KINDS), st.integers(0, 10 ** 6), st.integers(0, 10 ** 6)), min_size=5, max_size=40))
     return {"V": t["V"], "C": t["C"], "tags": t["tags"], "sort": draw(st.booleans()),
             "queries": [[first, draw(st.integers(0, 10 ** 6)), draw(st.integers(0, 10 ** 6))]] + [list(q) for q in rest],
-            "sweep_seed": draw(st.integers(0, 1000)), "form": draw(st.sampled_from(["list", "tuple"])),
+            "sweep_seed": draw(st.integers(0, 1000)), "form": draw(st.sampled_from(["list", "tuple", "numpy"])), "np_ids": draw(st.integers(0, 3)) == 0,
             # how the mesh object under test is produced: directly, or written to a file and loaded back ("however a mesh is built")
             "via": draw(st.sampled_from([None, None, None, "tet", "mesh", "geogram_ascii"])),
             "prequery_before_save": draw(st.booleans())}
@@ -71,8 +71,11 @@ def do_query(m, ref, info, sort_on, q, ctx, where):
     mfaces, fid, medges, eid = info
     nV, nC, nF, nE = ref.nV, len(ref.C), len(mfaces), len(medges)
     sig = "q:" + kind
+    np_ids = bool(ctx.case.get("np_ids"))
 
     def call(f, *args):
+        if np_ids:
+            args = tuple(np.int64(x) if (isinstance(x, int) and not isinstance(x, bool)) else x for x in args)
         return ctx.call(sig, f, *args)
 
     if kind == "face_to_cells":
@@ -332,7 +335,7 @@ def fn(case, ctx):
     ref = TetRef(len(V), Cl)
     for t in case.get("tags", []):
         ctx.label(t)
-    ctx.label("sort=" + str(case["sort"]), "via=" + str(case.get("via")))
+    ctx.label("sort=" + str(case["sort"]), "via=" + str(case.get("via")), "ids=" + ("numpy" if case.get("np_ids") else "int"), "form=" + case.get("form", "list"))
     ctx.label("first=" + case["queries"][0][0])
     ctx.nontrivial(len(Cl) >= 2 and any(len(cs) == 2 for cs in ref.f2c.values()))
 
